@@ -428,6 +428,20 @@ def run(tier="quick", seed=0):
             done_random += 1
             st["nontrivial"] += 1
 
+        # ======================= (iv) many different radii in one process ============================
+        # (the router memoises its search pattern per radius in module-level state: a sweep over radii - downwards, upwards,
+        #  shuffled - must route every time as it does for a radius seen first)
+        sweep_specs = [((4, 4), True, [((0, 0), [(2, 1), (3, 3), (0, 0)], 0)]),
+                       ((5, 3), False, [((4, 2), [(0, 0), (2, 1)], 0), ((1, 1), [(4, 0)], 0)]),
+                       ((3, 3), True, [((1, 1), [(0, 0), (2, 2), (0, 2), (2, 0)], 0)])]
+        orders = [list(range(20, -1, -1)), list(range(0, 21)), rng.sample(range(0, 31), 31)]
+        for (w, h), torus, spec in sweep_specs:
+            base_dead = frozenset() if torus else frozenset(_mesh_dead(w, h))
+            for order in orders:
+                for radius in order:
+                    evaluate(w, h, torus, base_dead, frozenset(), frozenset(), spec, radius, 1, 0)
+                    done_random += 1
+
         # ======================= minimise one representative failing input per clause ============
         def still(clause, case):
             last["quiet"] = True
@@ -478,7 +492,7 @@ def run(tier="quick", seed=0):
                     "the source as its own sink; sink flavours one core / two cores / RouteEndpointConstraint / no allocation rotate); radius 0,1,20; random.seed values %s; "
                     "fault families relative to the fault-free tree T of the same (net, radius, seed): L1 every single dead directed link with an end on a chip of T, C1 every single "
                     "dead chip hosting no vertex, CL every dead chip on T + one near dead link, L2 every pair of dead near links with >= 1 on T, L3 every triple with >= 2 on T; %s. "
-                    "(ii) %d seeded cases: machines up to 6x6, 1-3 nets of fan-out 1..9, directed dead-link density 0..85%%, 0-3 dead chips, radius 0/1/2/20; of these the last %d are large nets with a small radius (radius 1 on 6x6 / 7x5 / 8x8, radius 2 on 9x9 / 10x8 / 12x7, radius 3 on 12x12 / 13x11, mesh and torus, every fifth with 1-4 dead links): first a blob of sinks around the source large enough (3 x |search disc| + 1 .. + 9 chips) that the concentric-hexagon search for the nearest tree node is the branch taken, then 2-6 groups of late sinks outside it: a far chip, a chip one to three hops from it, and the chips in between. "
+                    "(ii) %d seeded cases: machines up to 6x6, 1-3 nets of fan-out 1..9, directed dead-link density 0..85%%, 0-3 dead chips, radius 0/1/2/20; of these the last %d are large nets with a small radius (radius 1 on 6x6 / 7x5 / 8x8, radius 2 on 9x9 / 10x8 / 12x7, radius 3 on 12x12 / 13x11, mesh and torus, every fifth with 1-4 dead links): first a blob of sinks around the source large enough (3 x |search disc| + 1 .. + 9 chips) that the concentric-hexagon search for the nearest tree node is the branch taken, then 2-6 groups of late sinks outside it: a far chip, a chip one to three hops from it, and the chips in between; and three nets each routed with every radius 20..0, 0..20 and 0..30 shuffled in one process (the search pattern is memoised per radius in module-level state). "
                     "Non-trivial = the tree has at least one hop and (faulted systematic cases) a fault lies on T or the family is CL/L2/L3 / (sample) any fault present; "
                     "systematic cases are distinct by construction, sampled cases de-duplicated by hash. One representative failing input per clause is minimised greedily "
                     "(drop nets, sinks, dead chips, dead links while the clause persists). "
